@@ -354,7 +354,7 @@ def r4(ctx: Ctx) -> None:
         if is_list:
             seen.add("list")
             ok = ck.get("(2 == len(json_value))") is True and r[0] == "call" and key(r[1]) == "self._next_uniform" and dict(r[3]) == {"min_value": _fl("json_value", 0), "max_value": _fl("json_value", 1)}
-            ctx.check(ok, f, f.node, "[a, b] -> uniform(a, b)", "len == 2; self._next_uniform(min_value=float(v[0]), max_value=float(v[1]))", short(r))
+            ctx.check(ok, f, f.node, "[a, b] -> uniform(a, b)", "len == 2; self._next_uniform(min_value=float(v[0]), max_value=float(v[1]))", short(r), guard="text", guard_text=__import__("ast").unparse(f.node))
         elif is_dict:
             ok1 = ck.get("(1 == len(json_value))") is True
             kind = [k for k in ("const", "uniform", "normal", "expon") if ck.get(f"('{k}' in json_value)")]
@@ -374,7 +374,7 @@ def r4(ctx: Ctx) -> None:
                 ok = ok and r[0] == "call" and key(r[1]) == "self._next_normal" and dict(r[3]) == {"mu": _fl(arr, 0), "sigma": _fl(arr, 1)}
             else:
                 ok = ok and r[0] == "call" and key(r[1]) == "self._next_exponential" and dict(r[3]) == {"lam": _fl(arr, 0)}
-            ctx.check(ok, f, f.node, f"{{'{k}': [...]}} -> its generator with {lens} argument(s) in order", f"list of {lens}; arguments float(args[i]) in order", short(r))
+            ctx.check(ok, f, f.node, f"{{'{k}': [...]}} -> its generator with {lens} argument(s) in order", f"list of {lens}; arguments float(args[i]) in order", short(r), guard="text", guard_text=__import__("ast").unparse(f.node))
         else:
             seen.add("scalar")
             ctx.check(r == ("call", ("name", "float"), (("sym", "json_value"),), (), None), f, f.node, "a plain number is returned as is", "float(json_value)", short(r))
